@@ -104,6 +104,7 @@ def run_instance(spec):
     core.RLIMIT = limits.get("rlimit", DEFAULT_RLIMIT)  # per instance; never inherited from the previous one
     for k in core.STATS:
         core.STATS[k] = 0
+    core.CHOICE_CACHE.clear()
     mod = importlib.import_module(spec["module"])
     fn = getattr(mod, spec["func"])
     cfg = spec.get("cfg", {})
